@@ -1,9 +1,9 @@
 (** C17 — ShardByPrefix: bounded contiguous shards, exact LCP lengths, strictly
     ascending prefixes.  Only the property theorems (each closed by [exact]),
     their axiom audit and non-vacuity examples. *)
-From Coq Require Import ZArith List Bool.
-From Low Require Import Lib.Bits Lib.BitSeq Lib.Lex Lib.Bytes Model.Sigbits Spec.SigbitsSpec
-  Proofs.SigbitsShardChecker Proofs.SigbitsShard.
+From Coq Require Import ZArith List Bool Lia.
+From Low Require Import Lib.Bits Lib.BitSeq Lib.Lex Lib.Bytes Model.Sigbits Spec.SigbitsSpec Spec.ShardRouteSpec
+  Proofs.SigbitsShardChecker Proofs.SigbitsLcpAll Proofs.SigbitsShard.
 Import ListNotations.
 Open Scope Z_scope.
 
@@ -33,6 +33,18 @@ Proof.
   split; [reflexivity|]. split; [apply shard_ok_sound; reflexivity|]. split; [reflexivity|].
   intros H. apply shard_ok_complete in H. discriminate H.
 Qed.
+
+(** The specification value [lcp_all ks] really is the longest common prefix of the keys [ks]
+    (so "L[j] = zlen (lcp_all shard)" says what the property says): it is a prefix of every key,
+    and every common prefix of all the keys is a prefix of it.  [is_prefix p x := firstn (length p) x = p]. *)
+Theorem C17_spec_lcp_common : forall ks k, In k ks -> is_prefix (lcp_all ks) k.
+Proof. exact lcp_all_common. Qed.
+Print Assumptions C17_spec_lcp_common.
+
+Theorem C17_spec_lcp_longest : forall ks p, ks <> [] -> (forall k, In k ks -> is_prefix p k) ->
+  is_prefix p (lcp_all ks) /\ (length p <= length (lcp_all ks))%nat.
+Proof. exact lcp_all_longest. Qed.
+Print Assumptions C17_spec_lcp_longest.
 
 (** The property.  For every non-empty, strictly ascending list of byte strings and every
     maxSize >= 1 -- any number of keys, any key lengths, any byte values -- the model of
@@ -84,4 +96,32 @@ Proof.
   { intros p Hp. cbn in Hp. repeat (destruct Hp as [<-|Hp]; [reflexivity|]). contradiction. }
   split; [cbv; congruence|]. split; [vm_compute; reflexivity|].
   apply shard_ok_sound. vm_compute. reflexivity.
+Qed.
+
+(** Widening (beyond the stated property): the prefixes returned by ShardByPrefix are a routing
+    table for the keys.  Key i is at or above (Go string order) the prefix of shard j exactly when
+    i >= B[j]; hence an upper-bound search for keys[i] over the sorted prefixes finds the shard
+    that holds keys[i].  This does NOT follow from [shard_spec] alone (shards {a,abc},{abd,abe}
+    with prefixes "a","ab" satisfy [shard_spec] for maxSize 2, yet "abc" > "ab"); it is a property
+    of the recursive split. *)
+Theorem C17_route : forall keys maxSize,
+  keys <> [] -> keys_ok keys -> strict_asc keys -> 1 <= maxSize ->
+  exists L B, ShardByPrefix keys maxSize = Some (L, B) /\ shard_spec keys maxSize L B /\ route_spec keys L B.
+Proof. exact ShardByPrefix_route. Qed.
+Print Assumptions C17_route.
+
+(** non-vacuity of the routing theorem, and the counterexample of the comment above: an accepted
+    sharding that is not a routing table (so [route_spec] is not implied by [shard_spec]) *)
+Example C17_route_nonvacuous :
+  let keys := [[97]; [97; 98; 99]; [97; 98; 100]; [97; 98; 101]] in
+  ShardByPrefix keys 2 = Some ([1; 3; 3; 3], [0; 1; 2; 3; 4]) /\
+  map (route (shard_prefixes keys [1; 3; 3; 3] [0; 1; 2; 3; 4])) keys = [0; 1; 2; 3] /\
+  route_okb 4 [0; 1; 2; 3; 4] [0; 1; 2; 3] = true /\
+  shard_ok keys 2 [1; 2] [0; 2; 4] = true /\
+  ~ route_spec keys [1; 2] [0; 2; 4].
+Proof.
+  cbv zeta. repeat (split; [vm_compute; reflexivity|]).
+  intros H. specialize (H 1%nat 1%nat ltac:(cbn; auto with arith) ltac:(cbn; auto with arith)).
+  destruct H as [H _]. assert (X : (2 <= 1)%Z) by (apply H; vm_compute; discriminate).
+  apply X. reflexivity.
 Qed.
